@@ -281,7 +281,10 @@ def cdfMBt (T : Fn) (x a : Rat) : Except Err Rat :=
     if t < 1 / 10 then .ok (mbSeries (T.sqrt (2 / T.pi)) t)
     else .ok (T.erf (t / T.sqrt 2) - T.sqrt (2 / T.pi) * t * T.exp (-t * t / 2))
 
-/-- the automatic bandwidth with its fallback to one table spacing for a sample without spread (fixprop-C07-4) -/
-def kdeAutoBandwidth (ruleOfThumb xMin xMax : Rat) : Rat := if ¬ (ruleOfThumb > 0) then (xMax - xMin) / 149 else ruleOfThumb
+/-- the automatic bandwidth with its fallback (fixes 405b930, C07-8): a rule-of-thumb bandwidth that the 150-point table cannot resolve
+    (not above 1/64 of its spacing `(xMax - xMin)/149`) is replaced by one spacing -/
+def kdeAutoBandwidth (ruleOfThumb xMin xMax : Rat) : Rat :=
+  let spacing := (xMax - xMin) / 149
+  if ¬ (ruleOfThumb > spacing / 64) then spacing else ruleOfThumb
 
 end Lp.C07
